@@ -116,12 +116,18 @@ impl CodeGenerator {
     /// Returns random float value within the bounds given by configuration
     pub fn random_float(push_state: &PushState) -> Option<f32> {
         let mut rng = rand::thread_rng();
-        if push_state.configuration.min_random_float < push_state.configuration.max_random_float {
-            Some(rng.gen_range(
-                push_state.configuration.min_random_float
-                    ..push_state.configuration.max_random_float,
-            ))
+        let min = push_state.configuration.min_random_float;
+        let max = push_state.configuration.max_random_float;
+        if min < max && min.is_finite() && max.is_finite() {
+            if (max - min).is_finite() {
+                Some(rng.gen_range(min..max))
+            } else {
+                // The width of the interval exceeds the largest float: draw in double precision
+                let value = rng.gen_range(min as f64..max as f64) as f32;
+                Some(if value < max { value } else { min })
+            }
         } else {
+            // Empty or reversed interval, or an infinite bound (no uniform value exists)
             None
         }
     }
